@@ -780,8 +780,12 @@ func (c *Client) Do(ctx context.Context, q Query) (err error) {
 				return nil
 			default:
 				if err := c.handlePacket(ctx, code, q); err != nil {
-					if IsException(err) {
+					if code == proto.ServerCodeException && IsException(err) {
 						// Prevent query cancellation on exception.
+						//
+						// Only for exception packet: handler error can wrap
+						// exception from another connection, while current
+						// stream is not fully consumed.
 						gotException.Store(true)
 					}
 					return errors.Wrap(err, "handle packet")
